@@ -2,6 +2,7 @@
 from __future__ import annotations
 
 import ast
+import re
 
 from .. import constfold
 from ..absint import Const, Obj, Tup, explore, vkey
@@ -13,7 +14,7 @@ from ..tables import Bool, Sign, check_table, SKIP
 
 
 def run(repo, report, tier):
-    report.rule("C03.R1", "in the whole package a record's .sequence / .qualities is only assigned on a private copy made in the same function (x = read[:]) or as the case normalisation x.sequence = x.sequence.upper(); at the designated mask / lowercase / zero-cap sites",
+    report.rule("C03.R1", "in the whole package a record's .sequence / .qualities is only assigned on a private copy made in the same function (x = read[:]) at the designated mask / lowercase / zero-cap / case-normalisation sites",
                 "a modifier changes bases or qualities of the read object it received: other holders of the same object (the untrimmed orientation under --revcomp, info.original_read) see the change, or sequence and qualities get out of step")
     report.rule("C03.R2", "the written strings keep the length and change only the documented positions: mask = N*start + seq[start:stop] + N*(len-stop); lowercase = seq[:start].lower() + seq[start:stop].upper() + seq[stop:].lower(); zero-cap uses a two-argument (1:1) translation table; (start, stop) = remainder(matches)",
                 "masking / lower-casing changes the read length or touches bases inside the part that trim would keep")
@@ -57,10 +58,8 @@ def r1_writers(repo, report):
     report.floor("C03.R1", "record field writes", len(sites), 5)
     for m, q, fn, n, tt, base in sites:
         value = n.value if isinstance(n, (ast.Assign, ast.AugAssign, ast.AnnAssign)) else None
-        # (b) case normalisation of the same field of the same object
-        if isinstance(n, ast.Assign) and isinstance(value, ast.Call) and isinstance(value.func, ast.Attribute) and value.func.attr == "upper" and not value.args and src(value.func.value) == src(tt):
-            report.ob("C03.R1", f"{q}: {src(tt)} (case normalisation)", True, facts={"statement": src(n)}, expected="x.f = x.f.upper()", loc=repo.loc(n, m))
-            continue
+        # (a case normalisation x.f = x.f.upper() is a write like any other: on the caller's record it changes
+        #  info.original_read and, under paired --revcomp, the mate the cutter is tried on - it needs a private copy too)
         # (a) the base name's most recent assignment before the write is a full-slice copy
         copy_ok = False
         last = None
@@ -415,11 +414,13 @@ def r5_actions(repo, report):
         else:
             report.unrecognised("C03.R5", f"AdapterCutter.match_and_trim action={a!r}", "the option offers an action that the property does not describe", repo.loc(mt))
             continue
-        report.ob("C03.R5", f"AdapterCutter.match_and_trim action={a!r}", outs == [want], facts={"returns": outs}, expected=want, loc=repo.loc(mt), fact_key=f"action={a}",
-                  why="" if outs == [want] else f"action {a!r} does not reach its own branch (it returns {outs})")
+        # a private copy of the read (READ[:]) handed to the helper is as good as the read itself
+        norm = [o.replace("(READ[:], [MATCH])", "(READ, [MATCH])") if a in helper else o for o in outs]
+        report.ob("C03.R5", f"AdapterCutter.match_and_trim action={a!r}", norm == [want], facts={"returns": outs}, expected=want, loc=repo.loc(mt), fact_key=f"action={a}",
+                  why="" if norm == [want] else f"action {a!r} does not reach its own branch (it returns {outs})")
         miss = [r for r in rows if r.valuation.get("isnone:MATCH") is True]
         outs_m = sorted({vkey(r.exit[1]) for r in miss if r.exit[0] == "return"})
-        report.ob("C03.R5", f"AdapterCutter.match_and_trim action={a!r} without match", outs_m == ["(READ, [])"], facts={"returns": outs_m}, expected="(READ, [])", loc=repo.loc(mt))
+        report.ob("C03.R5", f"AdapterCutter.match_and_trim action={a!r} without match", outs_m in (["(READ, [])"], ["(READ[:], [])"]), facts={"returns": outs_m}, expected="(READ, []) (or a copy of it)", loc=repo.loc(mt))
     # constructor accepts exactly the domain
     c, init = repo.need_method("AdapterCutter", "__init__")
     asserts = [n for n in ast.walk(init) if isinstance(n, ast.Assert) and isinstance(n.test, ast.Compare) and chain(n.test.left) == "action"]
@@ -467,8 +468,9 @@ def r5_actions(repo, report):
         if a not in ("trim", None) and a not in helper:
             continue
         want = f"[{w('R1', 'M1')}, {w('R2', 'M2')}]"
-        report.ob("C03.R5", f"PairedAdapterCutter.__call__ action={a!r}", outs == [want], facts={"returns": outs}, expected=want, loc=repo.loc(pc), fact_key=f"action={a}",
-                  why="" if outs == [want] else f"with --pair-adapters, action {a!r} returns {outs}")
+        normp = [re.sub(r"\((R[12])\[:\], \[", r"(\1, [", o) if a in helper else o for o in outs]  # a private copy handed to the helper is as good as the read
+        report.ob("C03.R5", f"PairedAdapterCutter.__call__ action={a!r}", normp == [want], facts={"returns": outs}, expected=want, loc=repo.loc(pc), fact_key=f"action={a}",
+                  why="" if normp == [want] else f"with --pair-adapters, action {a!r} returns {outs}")
 
 
 def r6_returns(repo, report):
